@@ -591,8 +591,15 @@ func c14alt(sc *sim.Scenario, env *sim.Env) *sim.Violation {
 			// the untraced world alike (so the run is discarded); what matters is the state the
 			// tracer is left in for the runs that follow in the same process
 			end := uint32(sc.C("pc")) & 0xFFFFFF
+			total := uint32(0)
 			for _, op := range sc.Ops {
 				end = end&0xFF0000 | (end+uint32(len(op.B)))&0xFFFF
+				total += uint32(len(op.B))
+			}
+			if uint32(sc.C("pc"))&0xFFFF+total+64 > 0x10000 {
+				// the program ends at the end of its bank: operand bytes wrap to the bank's start,
+				// "behind the program" is not one stretch of addresses. Not this dimension's case
+				return m
 			}
 			lo := end - k
 			m.Fault = func(a uint32) bool {
